@@ -37,6 +37,10 @@ pub struct Cfg {
     pub post_create: Vec<HookKind>,
     pub pre_recycle: Vec<HookKind>,
     pub post_recycle: Vec<HookKind>,
+    /// order of the builder calls: 0 max_size, queue_mode, hooks; 1 queue_mode, max_size,
+    /// hooks; 2 hooks, then config(PoolConfig); 3 config(PoolConfig), then hooks
+    #[serde(default)]
+    pub via: u8,
 }
 
 #[derive(Clone, Debug, Default, Serialize, Deserialize, PartialEq, Eq, Hash)]
